@@ -562,6 +562,11 @@ type JoinSpec struct {
 	Delim *PrintS   `json:"delim"`
 	Items []*PrintS `json:"items"`
 	To    string    `json:"to"` // Join, JoinToSB, JoinToPrinter
+	// Lines: the items are cut at their line feeds and every line is joined
+	// as an item of its own (each line of an output is a redactable string,
+	// C03; it may end or start inside a character). NoDelim: joined with "".
+	Lines   bool `json:"lines,omitempty"`
+	NoDelim bool `json:"noDelim,omitempty"`
 }
 
 func runJoin(j *JoinSpec) (out []byte, panicked bool) {
@@ -575,6 +580,18 @@ func runJoin(j *JoinSpec) (out []byte, panicked bool) {
 	items := make([]redact.RedactableString, len(j.Items))
 	for i, it := range j.Items {
 		items[i] = b.print(it)
+	}
+	if j.Lines {
+		var lines []redact.RedactableString
+		for _, it := range items {
+			for _, l := range bytes.Split([]byte(it), []byte("\n")) {
+				lines = append(lines, redact.RedactableString(l))
+			}
+		}
+		items = lines
+	}
+	if j.NoDelim {
+		delim = ""
 	}
 	switch j.To {
 	case "JoinToSB":
